@@ -477,6 +477,10 @@ def _tagged(g, picks):
 @st.composite
 def cases(draw):
     case = draw(c13_cases())
+    if case["kind"] == "family" and case["desc"]["family"] == "edges" \
+            and "call" in case["desc"].get("kinds", []) \
+            and draw(st.booleans()):
+        case["desc"]["call_twice"] = True
     n = draw(st.integers(0, 3))
     case["tag_picks"] = [[draw(st.integers(0, 999)) / 1000.0,
                           draw(st.integers(0, 2))] for _ in range(n)]
